@@ -308,4 +308,76 @@ def eventScore (rx : Rx) (startArgs : String → Option (List (String × Val)))
   | .pos k _ => .pos k priority
   | r => r
 
+/-! ### From a `match` statement to the reference event: `get_event_from_element` + `Action.get_event` /
+    `FlowState.get_event` (the cases a `match` statement can use) -/
+
+/-- Python `d[k] = v` on an insertion-ordered dict -/
+def setKey (k : String) (v : Val) : List (String × Val) → List (String × Val)
+  | [] => [(k, v)]
+  | (k', v') :: rest => if k' = k then (k, v) :: rest else (k', v') :: setKey k v rest
+
+/-- Python `d.update(u)` -/
+def dictUpdate (d u : List (String × Val)) : List (String × Val) :=
+  u.foldl (fun acc kv => setKey kv.1 kv.2 acc) d
+
+/-- an `Action` object as far as event construction reads it -/
+structure ActionObj where
+  uid : String
+  name : String
+  startArgs : List (String × Val)
+  deriving Repr, Inhabited
+
+/-- a `FlowState` object as far as event construction reads it -/
+structure FlowObj where
+  uid : String
+  flowId : String
+  args : List (String × Val)          -- FlowState.arguments
+  returnValue : Option Val := none     -- context["_return_value"] if present
+  deriving Repr, Inhabited
+
+/-- `Action.get_event(member, args)` for the events a `match` refers to (`Started`, `Finished`) -/
+def ActionObj.matchEvent (a : ActionObj) (member : String) (args : List (String × Val)) : Option Ev :=
+  if member = "Started" ∨ member = "Finished" then
+    some { kind := .action, name := a.name ++ member,
+           args := if a.startArgs.isEmpty then args else setKey "action_arguments" (.dict a.startArgs) args,
+           actionUid := some a.uid }
+  else none
+
+open NemoVerif.Generated.C04 in
+/-- `FlowState.get_event(member, args)` for `Started` / `Finished` / `Failed` (`_create_out_event`) -/
+def FlowObj.matchEvent (f : FlowObj) (member : String) (args : List (String × Val)) : Option Ev :=
+  let base : List (String × Val) :=
+    [("source_flow_instance_uid", .str f.uid), ("flow_instance_uid", .str f.uid), ("flow_id", .str f.flowId)]
+  let mk (name : String) (args' : List (String × Val)) : Ev :=
+    { kind := .internal, name := name, args := dictUpdate (dictUpdate base f.args) args', flowUid := some f.uid }
+  if member = "Started" then some (mk evFlowStarted args)
+  else if member = "Failed" then some (mk evFlowFailed args)
+  else if member = "Finished" then
+    some (mk evFlowFinished (match f.returnValue with
+      | some rv => setKey "return_value" rv args
+      | none => args))
+  else none
+
+/-- the shapes of `match` statement that are modelled -/
+inductive MatchStmt where
+  | actionRef (a : ActionObj) (member : String) (args : List (String × Val))      -- match $action_ref.Finished(args)
+  | flowRef (f : FlowObj) (member : String) (args : List (String × Val))          -- match $flow_ref.Finished(args)
+  | actionCtor (name : String) (ctorArgs : List (String × Val)) (member : String) (args : List (String × Val))
+                                                                                  -- match SomeAction(ctor).Finished(args)
+  | bare (name : String) (isLower : Bool) (args : List (String × Val))            -- match SomeEvent(args)
+
+open NemoVerif.Generated.C04 in
+/-- `get_event_from_element` for `op == "match"` -/
+def refEvent : MatchStmt → Option Ev
+  | .actionRef a member args => a.matchEvent member args
+  | .flowRef f member args => f.matchEvent member args
+  | .actionCtor name ctorArgs member args =>
+    -- a helper Action object is created; its uid is removed from the reference event
+    (ActionObj.matchEvent { uid := "", name := name, startArgs := ctorArgs } member args).map
+      fun e => { e with actionUid := none }
+  | .bare name isLower args =>
+    if isLower ∨ name ∈ internalEventsAll then some { kind := .internal, name := name, args := args }
+    else if (name.splitOn "Action").length > 1 then some { kind := .action, name := name, args := args }
+    else some { kind := .plain, name := name, args := args }
+
 end NemoVerif.Match
